@@ -52,7 +52,7 @@ def _gen_derive(rng: random.Random, m: _Model, *, domain: tuple[str, int], poly:
             oprs += ["differentiate", "differentiate"]
     opr = rng.choice(oprs)
     name = f"d{m.nd}"
-    via = rng.choice(["symbolic", "symbolic", "pipeline"])
+    via = rng.choice(["symbolic", "symbolic", "pipeline", "module"])
     spec: dict[str, Any]
     if opr == "integrate":
         src = rng.choice([n for n in cands if m.scope[n]] or cands)
@@ -114,6 +114,8 @@ def _gen_derive(rng: random.Random, m: _Model, *, domain: tuple[str, int], poly:
     else:
         return None
     m.nd += 1
+    if spec["via"] == "module":
+        spec["abort_inner"] = allow_fault and rng.random() < 0.6
     op: dict[str, Any] = {"op": "derive", "name": name, "spec": spec, "seed": _seed(rng)}
     if allow_fault and spec["via"] == "symbolic" and rng.random() < 0.35:
         op["fault"] = {"at": rng.randrange(0, 60), "when": rng.choice(["before", "before", "after"])}
